@@ -59,7 +59,7 @@ ASSUMPTIONS = [
     "RCR with equal velocities is physically impossible (f_L(p*)+f_R(p*) = ul-ur = 0 has no root below both pressures) and SCS with equal "
     "velocities exists only as the degenerate pure contact (pl = pr); the coverage assertion asks for the seven reachable cells "
     "(six for the general-EOS solver, which labels the zero-strength waves of a pure contact shock or rarefaction as its bisection lands)",
-    "general-EOS solver: agreement only to h*TV(q) + (2/num_int_pts) of the balance scale (class C)",
+    "general-EOS solver: agreement only to h*TV(q) + (4/num_int_pts) of the balance scale (class C)",
 ]
 
 K_IGEOS = {"quick": 2, "thorough": 3}
@@ -75,10 +75,10 @@ TOL_IGEOS = 1e-9
 # general-EOS solver (class C), a table-resolution term on top of the explicit h*TV bound: the P-U curves are tables of
 # num_int_pts pressures; a star pressure within one table step of pl or pr is clamped to the first table entry
 # (np.interp end value), a first-order error <= 1/(gamma*num_int_pts) in the star density.  Measured over the thorough
-# lattice (equal-state/two-gamma corner excluded): worst |residual|/S 1.6e-3, worst (|residual| - h*TV)/S 7.8e-4 at
-# num_int_pts=501 (pure contact pl=pr), < 0 at 2001  ->  2/num_int_pts (4e-3 / 1e-3).
+# lattice (equal-state/two-gamma corner excluded): worst |residual|/S 4.2e-3 (inside h*TV), worst (|residual| - h*TV)/S
+# 7.8e-4 at num_int_pts=501 (pure contact pl=pr)  ->  4/num_int_pts (8e-3 at 501, 2e-3 at 2001), 10x the measured excess.
 def tol_gen_table(num_int_pts):
-    return 2.0 / num_int_pts
+    return 4.0 / num_int_pts
 
 
 REQUIRED_CELLS = {
